@@ -652,18 +652,19 @@ Print Assumptions C13_step_refines_reachable_strings.
     calls in histories with [normalize] calls, [Inv2] along such histories, and the frame
     [C13_normalize_frame_partial] (part (i) of the functional specification).
 
-    FULL functional specification (stated, not all proved):
+    FULL functional specification (all proved; see the section "functional specification of [normalize]" at the
+    end of this file, builder-normalize2):
       (i)   non-Text nodes of the subtree and everything outside the subtree are unchanged (kinds, names, order,
-            attributes)  -- PROVED in the form [NF] for EVERY node of every document: static fields, data and parent
-            of non-Text nodes, child lists of non-Elements are unchanged, child lists of Elements lose Text nodes only.
-            MISSING: that Text nodes / Element child lists OUTSIDE the subtree of the receiver are untouched (needs a
-            descendant relation and its stability under the edits).
-      (ii)  for every element of the subtree the concatenation of the data of each maximal run of adjacent Text
-            children is unchanged  -- NOT PROVED (needs the loop invariant "previous is the child directly in front");
-            checked on every NZ call of the campaign by the python oracle [spec_normalize] of checks/dom13.py.
+            attributes)  -- [C13_normalize_frame_partial] ([NF] for EVERY node of every document) together with
+            [C13_normalize_local] (nothing outside the subtree underneath the receiver, [cdesc], changes; no other
+            document changes).
+      (ii)  for every node the concatenation of the data of each maximal run of adjacent Text children is unchanged
+            -- [C13_normalize_runs_unchanged] ([blocks]); serialisation: [C15_normalize_show_unchanged].
       (iii) afterwards two Text children of an element of the subtree are adjacent only if their concatenation is
-            not storable ([valid_str KTx] fails)  -- NOT PROVED; checked by the same oracle.
-      (iv)  idempotence  -- NOT PROVED; the generator calls normalize twice in a row (evidence: nothing-to-merge). *)
+            not storable ([valid_str KTx] fails)  -- [C13_normalize_normal_form] (raw view).
+      (iv)  idempotence  -- [C13_normalize_idempotent].
+      fuel: [C13_normalize_fuel_adequate]; merged-text view: [C13_normalize_merged_view];
+      refinement of [dom_normalize] of Spec/DomL1.v (reading R7): [C13_normalize_refines]. *)
 From XmlRs Require Import Model.DomNormalize Proofs.DomNormalizeHist Proofs.DomNormalizeC12 Proofs.DomNormalizeC13
   Proofs.DomNormalizeFrame.
 
@@ -732,3 +733,113 @@ Print Assumptions C13_inv2_reachable_with_normalize.
 Print Assumptions C13_normalize_frame_partial.
 Print Assumptions C13_normalize_frame_items.
 Print Assumptions C13_normalize_example.
+
+(** ** functional specification of [normalize] (builder-normalize2)
+
+    Proofs: Proofs/DomNormalizeStore.v (the model is the loop [ns] on the store of the receiver's document; in the
+    merged-text view nothing happens), DomNormalizeSteps.v (sequences [MS] of merges of ADJACENT Text children whose
+    concatenation is accepted: what every such sequence keeps), DomNormalizeLoop.v (the loop under the tree
+    invariant: [ns_spec]), DomNormalizeSpec.v (the statements below), DomNormalizeRefine.v (refinement).
+
+    Vocabulary.  [cdesc s r x]: [x] is [r] or is reached from [r] through child lists of elements -- the subtree
+    underneath [r] (attribute nodes and their values are not part of it).  [blocks s l]: the child list [l] with every
+    maximal run of adjacent Text nodes replaced by the concatenation of their data.  [quiet s None l]: no two adjacent
+    Text nodes of [l] have a concatenation that [valid_str KTx] accepts (the normal form of reading R7).
+    [MS D s s']: [s'] is reached from [s] by steps [merge _ e p c] -- [e] an element in [D], [p] and [c] Text children
+    of [e], [c] directly behind [p], the concatenation accepted: [p] takes the data of [c], [c] leaves the list. *)
+From XmlRs Require Import Proofs.DomNormalizeStore Proofs.DomNormalizeSteps Proofs.DomNormalizeLoop
+  Proofs.DomNormalizeSpec Proofs.DomNormalizeRefine.
+
+(** fuel: [next] of the document suffices, more fuel changes nothing (the fuel never runs out) *)
+Theorem C13_normalize_fuel_adequate : forall merged w r f, WInv w ->
+  (normalize_fuel w r <= f)%nat -> normalize_run merged f w r = normalize_run merged (normalize_fuel w r) w r.
+Proof. exact normalize_fuel_adequate. Qed.
+
+(** the merged-text view shows no Text node: the world is unchanged (any world) *)
+Theorem C13_normalize_merged_view : forall w r, fst (normalize true w r) = w.
+Proof. exact normalize_merged_view. Qed.
+
+(** what [normalize] is: a sequence of merges of adjacent Text children of elements of the subtree, each accepted *)
+Theorem C13_normalize_merge_sequence : forall merged w r s s', WInv w -> doc_at w (fst r) = Some s ->
+  doc_at (fst (normalize merged w r)) (fst r) = Some s' ->
+  MS (cdesc s (snd r)) s s'
+  /\ (merged = false -> kind_of s (snd r) = Some KEl -> forall e, cdesc s (snd r) e -> kind_of s e = Some KEl ->
+        quiet s' None (children_of s' e) = true).
+Proof. exact normalize_doc. Qed.
+
+(** (i) locality *)
+Theorem C13_normalize_local : forall merged w r s, WInv w -> doc_at w (fst r) = Some s ->
+  (forall k, k <> fst r -> doc_at (fst (normalize merged w r)) k = doc_at w k)
+  /\ exists s', doc_at (fst (normalize merged w r)) (fst r) = Some s'
+       /\ forall i, ~ cdesc s (snd r) i -> get s' i = get s i.
+Proof. exact normalize_local. Qed.
+
+(** (ii) the runs of adjacent Text children of EVERY node say what they said *)
+Theorem C13_normalize_runs_unchanged : forall merged w r s s', WInv w -> doc_at w (fst r) = Some s ->
+  doc_at (fst (normalize merged w r)) (fst r) = Some s' ->
+  forall e, blocks s' (children_of s' e) = blocks s (children_of s e).
+Proof. exact normalize_blocks. Qed.
+
+(** (iii) the normal form, for every element of the subtree (raw view) *)
+Theorem C13_normalize_normal_form : forall w r s s', WInv w -> doc_at w (fst r) = Some s ->
+  kind_of s (snd r) = Some KEl -> doc_at (fst (normalize false w r)) (fst r) = Some s' ->
+  forall e, cdesc s (snd r) e -> kind_of s e = Some KEl ->
+    quiet s' None (children_of s' e) = true
+    /\ forall pre x y post, children_of s' e = pre ++ x :: y :: post ->
+         has_kind s' KTx x = true -> has_kind s' KTx y = true ->
+         valid_str KTx (data_of s' x ++ data_of s' y) = false.
+Proof. exact normalize_normal_form. Qed.
+
+(** (iv) idempotence: the second call changes nothing and answers the same *)
+Theorem C13_normalize_idempotent : forall merged w r, WInv w ->
+  normalize merged (fst (normalize merged w r)) r = (fst (normalize merged w r), snd (normalize merged w r)).
+Proof. exact normalize_idempotent. Qed.
+
+(** a subtree in normal form is left alone, whatever the fuel (no invariant needed) *)
+Theorem C13_normalize_normal_form_noop : forall f s r,
+  (forall e, cdesc s r e -> kind_of s e = Some KEl -> quiet s None (children_of s e) = true) -> ns f s r = s.
+Proof. exact ns_quiet_noop. Qed.
+
+(** the model on worlds is [ns] on the store of the receiver's document (any world) *)
+Theorem C13_normalize_run_store : forall f w k r s,
+  doc_at w k = Some s -> normalize_run false f w (k, r) = set_doc w k (ns f s r).
+Proof. exact normalize_run_store. Qed.
+
+(** refinement rung (raw view): [normalize] refines [dom_normalize] of Spec/DomL1.v (reading R7), state and outcome *)
+Theorem C13_normalize_refines : forall w r, WInv w ->
+  abs (fst (normalize false w r)) = fst (DomL1.dom_normalize (abs w) r)
+  /\ outcome_class (snd (normalize false w r)) = snd (DomL1.dom_normalize (abs w) r).
+Proof. exact normalize_refines. Qed.
+
+(** the rung is for the raw view.  In the merged-text view [normalize] changes nothing although the raw tree underneath
+    may hold adjacent Text nodes (that view shows every run as ONE node: what its caller sees is in normal form);
+    seen through [abs] -- the raw tree -- such a call does not refine [dom_normalize].  Witness: *)
+Example C13_normalize_merged_view_not_raw :
+  WInv nz_before /\ fst (normalize true nz_before (0, 2)) = nz_before
+  /\ abs (fst (normalize true nz_before (0, 2))) <> fst (DomL1.dom_normalize (abs nz_before) (0, 2)).
+Proof. exact nz_merged_view_not_raw. Qed.
+
+(** the hypotheses are satisfiable by a non-trivial value: an element with a nested element that is not in normal
+    form; after the call the nested element has the refused pair ("t]]" in front of ">") left *)
+Example C13_normalize_spec_example :
+  WInv nz_before /\ doc_at nz_before 0 = Some (store0 nz_before)
+  /\ kind_of (store0 nz_before) 2 = Some KEl
+  /\ cdesc (store0 nz_before) 2 3 /\ kind_of (store0 nz_before) 3 = Some KEl
+  /\ quiet (store0 nz_before) None (children_of (store0 nz_before) 3) = false
+  /\ children_of (store0 (fst (normalize false nz_before (0, 2)))) 3 = [6; 10]
+  /\ valid_str KTx (data_of (store0 (fst (normalize false nz_before (0, 2)))) 6
+                    ++ data_of (store0 (fst (normalize false nz_before (0, 2)))) 10) = false.
+Proof. exact nz_spec_example. Qed.
+
+Print Assumptions C13_normalize_fuel_adequate.
+Print Assumptions C13_normalize_merged_view.
+Print Assumptions C13_normalize_merge_sequence.
+Print Assumptions C13_normalize_local.
+Print Assumptions C13_normalize_runs_unchanged.
+Print Assumptions C13_normalize_normal_form.
+Print Assumptions C13_normalize_idempotent.
+Print Assumptions C13_normalize_normal_form_noop.
+Print Assumptions C13_normalize_run_store.
+Print Assumptions C13_normalize_refines.
+Print Assumptions C13_normalize_merged_view_not_raw.
+Print Assumptions C13_normalize_spec_example.
